@@ -9,7 +9,7 @@ use serde::{Deserialize, Serialize};
 #[derive(Clone, Debug, Serialize, Deserialize, PartialEq)]
 pub enum Pred {
     /// aggregate covers at least k elements (k = 0 always true, k = n+1 always false)
-    LenGe(u8),
+    LenGe(u16),
     /// word contains a 1
     HasOne,
     /// word contains at least two 1s
@@ -57,6 +57,16 @@ pub trait Alg: Sync + Send + 'static {
     /// single-element node, so the tag must never be read).  None: the item type has no such form.
     fn dirty_item(_e: &Self::E) -> Option<Self::T> {
         None
+    }
+    /// number of elements an observed aggregate covers, if the observation tells (lets the search oracle
+    /// compare a shown aggregate with ONE candidate fold instead of all of them)
+    fn obs_len(_o: &Self::Obs) -> Option<usize> {
+        None
+    }
+    /// Does p hold on the fold of model[l..=r]?  Default: fold and test; algebras whose predicates only
+    /// look at cheap features override it (the size sweep runs searches on arrays of 4097 elements).
+    fn holds_on(p: &Pred, model: &[Self::E], l: usize, r: usize) -> bool {
+        Self::holds(p, &Self::fold(&model[l..=r]))
     }
     /// canonical bytes of one node of the implementation
     fn encode(t: &Self::T, out: &mut Vec<u8>);
@@ -170,15 +180,18 @@ impl Alg for AlgW {
     fn observe(t: &W) -> (u8, u64) {
         (t.len, t.bits)
     }
+    fn obs_len(o: &(u8, u64)) -> Option<usize> {
+        Some(o.0 as usize)
+    }
     fn preds(n: usize) -> Vec<Pred> {
-        let mut v: Vec<Pred> = (0..=n as u8 + 1).map(Pred::LenGe).collect();
+        let mut v: Vec<Pred> = (0..=n as u16 + 1).map(Pred::LenGe).collect();
         v.extend([Pred::HasOne, Pred::TwoOnes, Pred::OneThenZero]);
         v
     }
     fn holds(p: &Pred, o: &(u8, u64)) -> bool {
         let (len, bits) = *o;
         match p {
-            Pred::LenGe(k) => len >= *k,
+            Pred::LenGe(k) => len as u16 >= *k,
             Pred::HasOne => bits != 0,
             Pred::TwoOnes => bits.count_ones() >= 2,
             Pred::OneThenZero => {
@@ -281,8 +294,11 @@ impl Alg for AlgA3 {
     fn observe(t: &A3) -> Vec<u8> {
         t.vals.clone()
     }
+    fn obs_len(o: &Vec<u8>) -> Option<usize> {
+        Some(o.len())
+    }
     fn preds(n: usize) -> Vec<Pred> {
-        vec![Pred::LenGe(0), Pred::LenGe(1), Pred::LenGe(2), Pred::LenGe(n as u8), Pred::LenGe(n as u8 + 1), Pred::HasOne, Pred::OneThenZero]
+        vec![Pred::LenGe(0), Pred::LenGe(1), Pred::LenGe(2), Pred::LenGe(n as u16), Pred::LenGe(n as u16 + 1), Pred::HasOne, Pred::OneThenZero]
     }
     fn holds(p: &Pred, o: &Vec<u8>) -> bool {
         match p {
@@ -317,7 +333,7 @@ impl SegtreeItem<u8> for Fr {
     fn merge(l: &Self, r: &Self) -> Self {
         let mut elems = l.elems.clone();
         elems.extend(r.elems.iter().cloned());
-        elems.truncate(64);
+        elems.truncate(1 << 14);
         Fr { elems, pend: vec![] }
     }
     fn modify(&mut self, m: &u8) {
@@ -369,8 +385,11 @@ impl Alg for AlgFr {
     fn observe(t: &Fr) -> Vec<(u32, Vec<u8>)> {
         t.elems.clone()
     }
+    fn obs_len(o: &Vec<(u32, Vec<u8>)>) -> Option<usize> {
+        Some(o.len())
+    }
     fn preds(n: usize) -> Vec<Pred> {
-        vec![Pred::LenGe(0), Pred::LenGe(1), Pred::LenGe(2), Pred::LenGe(n as u8), Pred::LenGe(n as u8 + 1), Pred::LastMod(1)]
+        vec![Pred::LenGe(0), Pred::LenGe(1), Pred::LenGe(2), Pred::LenGe(n as u16), Pred::LenGe(n as u16 + 1), Pred::LastMod(1)]
     }
     fn holds(p: &Pred, o: &Vec<(u32, Vec<u8>)>) -> bool {
         match p {
@@ -379,8 +398,15 @@ impl Alg for AlgFr {
             _ => unreachable!(),
         }
     }
+    fn holds_on(p: &Pred, model: &[(u32, Vec<u8>)], l: usize, r: usize) -> bool {
+        match p {
+            Pred::LenGe(k) => r + 1 - l >= *k as usize,
+            Pred::LastMod(m) => model[l..=r].iter().any(|e| e.1.last() == Some(m)),
+            _ => unreachable!(),
+        }
+    }
     fn encode(t: &Fr, out: &mut Vec<u8>) {
-        out.push(t.elems.len() as u8);
+        out.extend_from_slice(&(t.elems.len() as u16).to_le_bytes());
         for e in &t.elems {
             Self::encode_elem(e, out);
         }
@@ -656,7 +682,7 @@ impl Alg for AlgSumAdd {
         (t.v, t.len)
     }
     fn preds(n: usize) -> Vec<Pred> {
-        let mut v: Vec<Pred> = vec![Pred::LenGe(0), Pred::LenGe(1), Pred::LenGe(2), Pred::LenGe(n as u8), Pred::LenGe(n as u8 + 1)];
+        let mut v: Vec<Pred> = vec![Pred::LenGe(0), Pred::LenGe(1), Pred::LenGe(2), Pred::LenGe(n as u16), Pred::LenGe(n as u16 + 1)];
         v.extend((0..=3).map(Pred::VGe));
         v
     }
